@@ -20,8 +20,12 @@ type SvcRes struct {
 	// current state only between a silent mutation and its reset/query).
 	AnnM  map[string]string
 	AnnC  []string
+	PreM  map[string]string // model state before the unannounced mutation(s)
 	Dirty bool
-	Seq   int // number of stream events emitted for this resource
+	// NoConv marks a resource for which the service has answered
+	// untruthfully or not at all: convergence is not expected any more.
+	NoConv bool
+	Seq    int // number of stream events emitted for this resource
 	// StreamLast is the last emitted position of the C03 stream discipline
 	// (custom k = 2k-1, state event writing k = 2k); 0 if unused.
 	StreamLast int
@@ -269,6 +273,10 @@ func (s *SvcModel) Reaccess(key string) {
 // Silent mutates without announcing anything.
 func (s *SvcModel) Silent(key string, f func(r *SvcRes)) {
 	r := s.Res[key]
+	if !r.Dirty {
+		// what a query response in "events" form is relative to
+		r.PreM = cloneM(r.M)
+	}
 	f(r)
 	r.Dirty = true
 }
@@ -305,32 +313,29 @@ func (s *SvcModel) QueryAnswer(name, nq, mode string) []byte {
 	}
 	switch mode {
 	case "events":
+		// events relative to the state before the mutation (idempotent for
+		// models); collections are answered in full
+		if r.Kind != "model" {
+			return []byte(`{"result":{"collection":` + jsonColl(r.C) + `}}`)
+		}
 		var evs []string
-		if r.Kind == "model" {
-			ch := map[string]string{}
-			for k, v := range r.M {
-				if r.AnnM[k] != v {
-					ch[k] = v
-				}
+		pre := r.PreM
+		if pre == nil {
+			pre = r.AnnM
+		}
+		ch := map[string]string{}
+		for k, v := range r.M {
+			if pre[k] != v {
+				ch[k] = v
 			}
-			for k := range r.AnnM {
-				if _, ok := r.M[k]; !ok {
-					ch[k] = DeleteAction
-				}
+		}
+		for k := range pre {
+			if _, ok := r.M[k]; !ok {
+				ch[k] = DeleteAction
 			}
-			if len(ch) > 0 {
-				evs = append(evs, `{"event":"change","data":{"values":`+jsonModel(ch)+`}}`)
-			}
-		} else {
-			for i := len(r.AnnC) - 1; i >= 0; i-- {
-				evs = append(evs, fmt.Sprintf(`{"event":"remove","data":{"idx":%d}}`, i))
-			}
-			for i, v := range r.C {
-				evs = append(evs, fmt.Sprintf(`{"event":"add","data":{"idx":%d,"value":%s}}`, i, v))
-			}
-			if jsonColl(r.AnnC) == jsonColl(r.C) {
-				evs = nil
-			}
+		}
+		if len(ch) > 0 {
+			evs = append(evs, `{"event":"change","data":{"values":`+jsonModel(ch)+`}}`)
 		}
 		return []byte(`{"result":{"events":[` + strings.Join(evs, ",") + `]}}`)
 	case "empty":
